@@ -54,6 +54,9 @@ pub struct Plan {
     pub check_probe_neutral: bool,
     /// ClassSweep: every scalar value (true) or only values within +-2 of a boundary (false)
     pub sweep_all: bool,
+    /// also feed every input through a non-fused iterator that reports end of input after each
+    /// possible prefix and then continues: the lexer must behave as on the prefix and stay ended
+    pub pieces: bool,
 }
 
 #[derive(Default)]
@@ -432,7 +435,7 @@ impl Explorer<'_, '_> {
     }
 
     fn run_one(&mut self, input: &str, script: &[u8], ctor: u8) -> Trace {
-        let args = RunArgs { input, script, ctor, probes: true, nones: 3, no_text: input.len() > 64 };
+        let args = RunArgs { input, script, ctor, probes: true, nones: 3, no_text: input.len() > 64, split: 0 };
         let (t, _, _) = (self.l.runner)(&args, &Mode::Plain);
         self.c.executions += 1;
         self.outcomes.insert(hash_trace(&t));
@@ -485,7 +488,7 @@ impl Explorer<'_, '_> {
                     out
                 };
                 let whole = cut(&t);
-                let args = RunArgs { input, script, ctor: ctor0, probes: true, nones: 2, no_text: false };
+                let args = RunArgs { input, script, ctor: ctor0, probes: true, nones: 2, no_text: false, split: 0 };
                 // two runs of the same lexer on the same input give the same result
                 let t_again = self.run_one(input, script, ctor0);
                 if t_again != t {
@@ -549,9 +552,39 @@ impl Explorer<'_, '_> {
                 }
             }
         }
+        // end of input is acted upon once: a non-fused iterator that goes on after its first `None`
+        if plan.pieces && script.is_empty() && input.len() <= 64 {
+            let n = input.chars().count();
+            for split in 0..n {
+                let args = RunArgs { input, script, ctor: CTOR_PIECES, probes: false, nones: 3, no_text: false, split };
+                let (tp, _, _) = (self.l.runner)(&args, &Mode::Plain);
+                self.c.executions += 1;
+                let prefix: String = input.chars().take(split).collect();
+                let argsp = RunArgs { input: &prefix, script, ctor: CTOR_FROM_ITER_WITH_STATE, probes: false, nones: 3, no_text: false, split: 0 };
+                let (te, _, _) = (self.l.runner)(&argsp, &Mode::Plain);
+                self.c.executions += 1;
+                // what an action sees through `peek()` after the iterator's first `None` is the
+                // iterator's business (it is not fused): compare everything but that
+                let nopeek = |t: &Trace| -> Vec<(Vec<Ev>, Item)> { items(t).into_iter().map(|(ev, it)| (ev.into_iter().map(|e| Ev { peek: None, ..e }).collect(), it)).collect() };
+                if nopeek(&tp) != nopeek(&te) {
+                    let k = (0..tp.len().max(te.len())).find(|&k| nopeek(&tp).get(k) != nopeek(&te).get(k)).unwrap_or(0);
+                    self.viol(
+                        input,
+                        script,
+                        CTOR_PIECES,
+                        (
+                            format!("iterator reports end of input after {split} characters and then continues: the lexer must behave as on {prefix:?} and stay ended; call {k} differs"),
+                            format!("{:?}", te.get(k).map(|s| &s.item)),
+                            format!("{:?}", tp.get(k).map(|s| &s.item)),
+                        ),
+                    );
+                    break;
+                }
+            }
+        }
         // probe neutrality: probing between calls must not change what the lexer returns
         if plan.check_probe_neutral && script.is_empty() {
-            let args = RunArgs { input, script, ctor: ctor0, probes: false, nones: 3, no_text: input.len() > 64 };
+            let args = RunArgs { input, script, ctor: ctor0, probes: false, nones: 3, no_text: input.len() > 64, split: 0 };
             let (t2, _, _) = (self.l.runner)(&args, &Mode::Plain);
             self.c.executions += 1;
             if items(&t2) != items(&t) {
@@ -624,7 +657,7 @@ impl Explorer<'_, '_> {
             input.push_str(prefix);
             input.push(c);
             input.push_str(suffix);
-            let args = RunArgs { input: &input, script: &[], ctor: self.plan.ctors[0], probes: false, nones: 1, no_text: true };
+            let args = RunArgs { input: &input, script: &[], ctor: self.plan.ctors[0], probes: false, nones: 1, no_text: true, split: 0 };
             let (t, _, _) = (self.l.runner)(&args, &Mode::Plain);
             self.c.executions += 1;
             let member = crate::iset::contains(&set, q);
@@ -767,7 +800,7 @@ pub fn run_batch(plan: &Plan, lexers: &[LexerUnderTest], first_idx: usize, threa
                 if g.3.len() < 3 {
                     // a sample: the definition, one input and the trace it gave
                     let input = inputs.iter().find(|s| s.chars().count() >= 3).cloned().unwrap_or_default();
-                    let args = RunArgs { input: &input, script: &[], ctor: plan.ctors[0], probes: true, nones: 2, no_text: false };
+                    let args = RunArgs { input: &input, script: &[], ctor: plan.ctors[0], probes: true, nones: 2, no_text: false, split: 0 };
                     let (t, _, _) = (l.runner)(&args, &Mode::Plain);
                     g.3.push(json!({"definition": l.spec.describe(), "input": input, "script": "default", "trace": format!("{:?}", t.iter().map(|s| &s.item).collect::<Vec<_>>())}));
                 }
